@@ -28,7 +28,8 @@ IMPORTS = ("From Coq Require Import String Ascii List ZArith NArith QArith Bool.
 
 RESOURCE_NAMES = ["cpu_stats", "disk_stats", "mem_stats", "net_stats", "process_stats"]
 JSON_NAMES = ["hpc_submit", "hpc_job_assigned", "hpc_job_state_change", "bytes_consumed", "unhandled_error",
-              "log_error", "submit_started", "submit_completed", "config_exec_summary", "custom.name", "x"]
+              "log_error", "submit_started", "submit_completed", "config_exec_summary", "custom.name", "x",
+              "custom.other", "custom"]      # user event names that share everything before a dot
 
 
 def quiet_jade_logging():
